@@ -619,7 +619,21 @@ pub fn run_state_case(spec: &Spec, out: &mut dyn Write) -> GeomOut {
         }
         Items::Discs(v) => {
             let want = union_area(v);
-            if !(sarea.is_finite()) || (sarea - want).abs() > 1e-9 * want.max(1.) {
+            // two discs tangent to within rounding (externally or internally): the lens formula of the code AND the
+            // arc decomposition of this oracle both evaluate acos next to 1 and keep only half of their digits
+            // (errors of about sqrt(machine epsilon) * r^2 ~ 1e-8) - neither can judge the other more finely there
+            let mut tangent = false;
+            for i in 0..v.len() {
+                for j in (i + 1)..v.len() {
+                    let d = ((v[i][0] - v[j][0]).powi(2) + (v[i][1] - v[j][1]).powi(2)).sqrt();
+                    let (s, t) = (v[i][2] + v[j][2], (v[i][2] - v[j][2]).abs());
+                    if (d - s).abs() <= 1e-13 * s || (d - t).abs() <= 1e-13 * s {
+                        tangent = true;
+                    }
+                }
+            }
+            let tol = if tangent { 1e-7 } else { 1e-9 };
+            if !(sarea.is_finite()) || (sarea - want).abs() > tol * want.max(1.) {
                 let class = if triple_or_nested(v) { " [class=triple-or-nested]" } else { "" };
                 add(&mut f, "C02", format!("molecule area {:?}, the area of the union of its discs is {:?}{}", sarea, want, class));
             }
@@ -1071,7 +1085,10 @@ pub fn run_state_case(spec: &Spec, out: &mut dyn Write) -> GeomOut {
             // two descriptions of one crystal: the origin shifted by a symmetry-equivalent half lattice vector.
             // (Only for molecules of like particles: for unlike particles the pair energy itself depends on the
             // order of the pair - known finding D9 - and with it on which copies lie inside the cell.)
-            if spec.kv.contains_key("len") && like && beyond3 == 0. {
+            // (uncut potential: the truncation error is ESTIMATED from rings 4..16; in a cell so flat that 16 rings do
+            // not reach 20 length units the estimate is itself truncated and cannot bound the allowed difference)
+            let estimate_ok = cut.is_some() || 16. * height >= 20.;
+            if spec.kv.contains_key("len") && like && beyond3 == 0. && estimate_ok {
                 for (hx, hy) in [(0.5, 0.), (0., 0.5), (0.5, 0.5)].iter() {
                     let mut s2 = spec.clone();
                     let wrapc = |v: f64| -> f64 { let w = v + 0.5; let w = w - w.floor(); w - 0.5 };
@@ -1086,8 +1103,16 @@ pub fn run_state_case(spec: &Spec, out: &mut dyn Write) -> GeomOut {
                             // the allowed difference: rounding, plus (uncut potential) the truncation error
                             let tol = 1e-9 * (1. + s1.abs()) + 3. * trunc;
                             if s1.is_finite() && s2v.is_finite() && s1.abs() < 1e6 && (s1 - s2v).abs() > tol {
+                                // C03_lj_score_is_infinite_lattice_sum: when cutoff + 2 rho <= 3 height no description has
+                                // in-range pairs beyond three shells; when it fails, one of the two descriptions may - that
+                                // is known finding D14, showing up in the shifted description
+                                let rho = match &items {
+                                    Items::Ljs(v) => v.iter().map(|i| (i.0 * i.0 + i.1 * i.1).sqrt()).fold(0., f64::max),
+                                    _ => 0.,
+                                };
+                                let class = if cut.map(|c| c + 2. * rho > 3. * height).unwrap_or(false) { " [class=beyond-three-shells]" } else { "" };
                                 add(&mut f, "C03", format!(
-                                    "the same crystal described with the origin shifted by ({},{}) scores {:?} instead of {:?} (allowed difference {:e})", hx, hy, s2v, s1, tol));
+                                    "the same crystal described with the origin shifted by ({},{}) scores {:?} instead of {:?} (allowed difference {:e}){}", hx, hy, s2v, s1, tol, class));
                                 break;
                             }
                         }
